@@ -26,6 +26,11 @@ def run(ctx):
     # permitted-alphabet constraints FROM (...) against an independent reading of the permitted set
     from .. import fromfam as _fromfam
     _fromfam.run(ctx, 'C05', ctx.rng, ctx.n(30, 400), codecs=['per', 'uper'])
+    # two extension markers with root components after the second one: X.691 19.6 encodes them as root components
+    from .. import twomark as _twomark, samename as _samename
+    _twomark.run(ctx, 'C05', ctx.rng, ctx.n(60, 700), ['per', 'uper'])
+    # same-named bounds / types imported from different modules: the bits are those of the type written in place
+    _samename.run(ctx, 'C05', ctx.rng, ctx.n(4, 40), codecs=['per', 'uper'])
 
 
 def replay(ctx, path):
